@@ -188,7 +188,6 @@ Lemma grow_realised : forall R h, (forall x, In x R -> realised x) ->
   forall x, In x (grow R h) -> realised x.
 Proof.
   intros R [[v u] l] HR x Hx. unfold PropSpec.grow in Hx. cbn [fst snd] in Hx.
-  destruct (existsb (eqVL (v, l)) R); [apply HR; exact Hx|].
   destruct (hint_ok R ((v, u), l)) eqn:Hh; [|apply HR; exact Hx].
   destruct Hx as [Hx|Hx]; [subst x|apply HR; exact Hx].
   unfold PropSpec.hint_ok in Hh. cbn [fst snd] in Hh.
